@@ -100,6 +100,10 @@ type WF struct {
 	RunTo       []string
 	RunToMode   int  // 0 names, 1 regex, 2 procs
 	FullLogging bool // do not lower the log level: NewWorkflow sets up audit logging to stdout + file
+	// Rounds: further runs of the same workflow inside the SAME process (a driver
+	// program that builds and runs it again): before round i the listed files
+	// (absolute paths) are deleted together with their audit files
+	Rounds [][]string
 }
 
 func (w *WF) NodeByName(n string) *Node {
